@@ -954,6 +954,72 @@ void failrealloc_case(long idx) {
     if (vf::want_sample()) vf::sample(desc());
 }
 
+// ------------------------------------------------------------------ section names: user-defined allocator families
+// A family is identified by the allocator's name(): TestMemoryAllocator::isOfEqualType compares the complete name strings
+// (SimpleString::StrCmp, case sensitive) and the allocator keeps the caller's pointer (so the harness keeps every name
+// buffer alive and unchanged for the whole run). Two user-defined allocators A and B, the block allocated through A and
+// released through B; reference: type mismatch iff type checking is on and the two complete names differ.
+struct NamePair { std::string a, b; const char* what; bool same_buffer; };
+std::vector<NamePair> NAMES;
+void build_names() {
+    auto filler = [](size_t n) { std::string s; const char* w = "Fixed Block Pool Allocator for family "; while (s.size() < n) s += w[s.size() % 38]; s.resize(n); return s; };
+    NAMES.push_back({"Pool A", "Pool B", "short distinct names", false});
+    NAMES.push_back({"", "x", "an empty name and a one-letter name", false});
+    for (size_t k : {15, 31, 32, 63, 64, 127, 255}) {
+        std::string pre = filler(k);
+        NAMES.push_back({pre + "x", pre + "y", "names equal in the first k characters, different in the next (last) one", false});
+        NAMES.push_back({pre + "x common tail", pre + "y common tail", "names equal in the first k characters, different in the next one, equal again afterwards", false});
+    }
+    for (size_t k : {8, 31, 32, 64}) { std::string pre = filler(k); NAMES.push_back({pre, pre + " []", "one name is a proper prefix of the other", false}); }
+    NAMES.push_back({"Pool Allocator", "pool allocator", "names equal except for letter case", false});
+    NAMES.push_back({filler(40), filler(39) + "Y", "names equal except for the case of the last letter", false});
+    for (size_t k : {0, 6, 31, 32, 40, 300}) { std::string n = filler(k); NAMES.push_back({n, n, "the same text in two different buffers", false}); }
+    NAMES.push_back({"Shared name buffer", "Shared name buffer", "both allocators were given the same buffer", true});
+}
+void names_case(long idx) {
+    vf::Radix r(idx);
+    int gs = (int)r.take(2), T = (int)r.take(2), wa = (int)r.take(2), wr = (int)r.take(2), route = (int)r.take(11), order = (int)r.take(2); const NamePair& np = NAMES[r.take((long)NAMES.size())];
+    const std::string& na = order ? np.b : np.a; const std::string& nb = order ? np.a : np.b;
+    bool same = na == nb;                                            // complete strings
+    Env env(T != 0);
+    env.route_only = true; env.qual = "/named-family";
+    TestMemoryAllocator A(na.c_str(), "alloc", "free");
+    TestMemoryAllocator B(np.same_buffer ? na.c_str() : nb.c_str(), "alloc", "free");
+    MemoryAccountant acct;
+    AccountingTestMemoryAllocator WA(acct, &A), WB(acct, &B);
+    TestMemoryAllocator* aa = wa ? (TestMemoryAllocator*)&WA : &A; TestMemoryAllocator* rb = wr ? (TestMemoryAllocator*)&WB : &B;
+    bool api = route >= 9; int sa = api ? (route == 9 ? NEW : MAL) : route / 3, sr = api ? sa : route % 3;
+    Blk b;
+    if (!api) { setcur(sa, aa); b = env.alloc(sa, W_NONE, 7); setcur(sa, defalloc(sa)); }
+    else {
+        vf::ctx("allocMemory");
+        { Window win; b.p = env.det->allocMemory(aa, 7, "alloc.c", 12, sa == MAL); }
+        if (!b.p) vf::harness_error("allocMemory returned NULL");
+        b.size = 7; b.fam = sa; for (size_t i = 0; i < 7; i++) b.p[i] = (char)pat(i); memcpy(b.g0, b.p + 7, 3);
+    }
+    if (gs) b.p[b.size] = (char)(b.g0[0] ^ 0x08);
+    bool changed = guard_changed(b);
+    auto shown = [](const std::string& n) { return n.size() <= 48 ? "'" + n + "'" : "'" + n.substr(0, 20) + "...' (" + std::to_string(n.size()) + " characters, last: '" + n.substr(n.size() - 14) + "')"; };
+    auto desc = [&]() { return vf::fmt("allocated through %sallocator named %s by %s, released through %sallocator named %s by %s (%s), type checking %s, guard %s", wa ? "an accounting allocator around an " : "an ", shown(na).c_str(), api ? "allocMemory" : ALLOC_NAME[sa], wr ? "an accounting allocator around an " : "an ", shown(nb).c_str(), api ? "invalidateMemory+deallocMemory" : REL_NAME[sr], np.what, T ? "on" : "off", gs ? "byte 0 changed" : "intact"); };
+    env.watch(b);
+    if (!api) { setcur(sr, rb); env.release(K_GLOBAL, sr, W_NONE, b.p); setcur(sr, defalloc(sr)); }
+    else {
+        env.rep.reset(); env.det->outputBuffer_.clear();
+        vf::ctx("deallocMemory");
+        { Window win; env.det->invalidateMemory(b.p); env.det->deallocMemory(rb, b.p, "free.c", 22, sa == MAL); }
+    }
+    Cat want = (T && !same) ? C_MISMATCH : changed ? C_CORRUPT : C_NONE;
+    const char* chan = api ? (sa == MAL ? "free" : "delete") : REL_NAME[sr];
+    env.judge(chan, false, want, desc);
+    const char* pv = env.poison_verdict(chan, false, desc);
+    env.anomalies();
+    size_t common = 0; while (common < na.size() && common < nb.size() && na[common] == nb[common]) common++;
+    vf::outcome(vf::fmt("%s %s common-prefix %zu of %zu/%zu %s", api ? "api" : "routed", CAT[want], common, na.size(), nb.size(), pv));
+    if (!same && common >= 8) vf::count("nontrivial");           // different families with a long common beginning
+    vf::count("transitions", 2);
+    if (vf::want_sample()) vf::sample(desc());
+}
+
 // ------------------------------------------------------------------ section hist: histories up to the first report
 void hist_case(vf::Chooser& ch, int depth, int maxlive) {
     Env env(true);
@@ -1109,6 +1175,11 @@ int main(int argc, char** argv) {
     vf::info("pairs2.bound", std::string("allocator stacks {family, W(family), W1(W2(family))} with W, W1, W2 over {AccountingTestMemoryAllocator, SimpleStringCacheAllocator, MemoryLeakAllocator} and family over {new, new[], malloc} = 39 stacks on the allocating side x (39 stacks through delete/delete[]/free + the 13 malloc stacks through realloc) on the releasing side (equal stacks are the same objects) x type checking on/off x guard {intact, byte 0, 1, 2 changed} x sizes ") + (TH ? "{0,1,7,8,9,16,17,4096}" : "{0,1,8,17}") + "; detector driven through allocMemory / invalidateMemory+deallocMemory / reallocMemory as the global overloads do; a second private detector is the global one");
     vf::section_index("pairs2", (long)P2_SIZES.size() * (long)STACKS.size() * ((long)STACKS.size() + (long)STACKS.size() / 3) * 2 * 4, pair2_case);
     vf::require_outcomes("pairs2", 40);
+
+    build_names();
+    vf::info("names.bound", vf::fmt("%zu pairs of family names {short distinct; empty / one letter; equal in the first k characters and different in the next one, with and without a common tail, k in {15,31,32,63,64,127,255}; proper prefix (8,31,32,64 characters); equal except for letter case; the same text in two buffers (0,6,31,32,40,300 characters); the same buffer} x both orders x {allocating slot x releasing slot of the global routing via setCurrentXAllocator (3x3), detector API with in-block / separate record} x accounting wrapper on the allocating / releasing side x type checking on/off x guard {intact, changed}; reference: same family iff the complete names are equal", NAMES.size()));
+    vf::section_index("names", (long)NAMES.size() * 2 * 11 * 2 * 2 * 2 * 2, names_case);
+    vf::require_outcomes("names", 20);
 
     vf::info("failrealloc.bound", "family {new, new[], malloc} x accounting record {in the block, separately allocated} (detector API, as the overloads call it) x sizes {0,1,8,17} x 1 or 2 reallocations that cannot succeed {platform realloc answers NULL, size_t(-5)} through the block's own family x guard {intact, byte 0/1/2 changed before the failing reallocation, byte 0/1/2 changed after it} x type checking on/off x release through {delete, delete[], free (invalidateMemory+deallocMemory), a reallocation that succeeds}");
     vf::section_index("failrealloc", 7L * 2 * 4 * 2 * 2 * 2 * 3 * 4, failrealloc_case);
